@@ -989,8 +989,8 @@ theorem varFactor_nontpl {sp : ClassSpec F} (htpl : sp.tpl = false) (s : State F
   simp [varFactor, htpl, one_eq]
 
 /-- what holds in every state reached by a history of plain setters none of which raised
-    (classes without variance factor, dimension-independent bounds) -/
-theorem reachOk_invariants {sp : ClassSpec F} (hsp : SpecOK sp) (htpl : sp.tpl = false) {s : State F}
+    (dimension-independent bounds; for TPL classes the unchecked `rescale` setter is not plain) -/
+theorem reachOk_invariants {sp : ClassSpec F} (hsp : SpecOK sp) {s : State F}
     (h : ReachOk sp s) : WF s ∧ checkArgBounds sp s = none ∧ DefaultBounds sp s := by
   induction h with
   | init hc =>
@@ -1019,6 +1019,9 @@ theorem reachOk_invariants {sp : ClassSpec F} (hsp : SpecOK sp) (htpl : sp.tpl =
     refine ⟨hw', ?_, hdb'⟩
     by_cases hr : ∃ v, op = .setRescale v
     · obtain ⟨v, rfl⟩ := hr
+      have htpl : sp.tpl = false := by
+        simp only [Op.plain, Bool.not_eq_true'] at hp
+        exact hp
       simp only [step, doSetRescale] at herr ⊢
       split at herr
       · cases herr
